@@ -644,12 +644,12 @@ def seeded(rng, f):
 def oracle(ctx):
     o = Oracle(ctx)
     with np.errstate(all='ignore'):
-        o.constructors(ctx.n(60, 1500))
-        o.trees(ctx.n(150, 4000))
+        o.constructors(ctx.n(300, 4000))
+        o.trees(ctx.n(600, 12000))
 
 
 def run(ctx):
-    ctx.rule = ("obligations: theorems/lemmas/examples of theories/Props/C01_ctor.v, C01_sqrt.v, C01_ops.v over the traces regenerated "
+    ctx.rule = ("obligations: theorems/lemmas/examples of theories/Props/C01_ctor.v, C01_class.v, C01_sqrt.v, C01_ops.v over the traces regenerated "
                 "from /repo; evaluations: Sym==Num cases (generated model vs implementation) + oracle evaluations of the validity residuals "
                 "(max|RR'-I|, |det-1|, exact last row, | |q|-1 |, tolerance 1e-9) on every element returned by every constructor x option "
                 "and by random expression trees through the classes; a case is distinct by (site, element, inputs)")
@@ -661,8 +661,8 @@ def run(ctx):
         ctx.fail('gen:compile', 'generated traces do not compile: ' + err[-800:], no_input=True)
         return
     from concurrent.futures import ThreadPoolExecutor
-    files = ['theories/Props/C01_ctor.v', 'theories/Props/C01_sqrt.v', 'theories/Props/C01_ops.v']
-    with ThreadPoolExecutor(3) as ex:
+    files = ['theories/Props/C01_ctor.v', 'theories/Props/C01_class.v', 'theories/Props/C01_sqrt.v', 'theories/Props/C01_ops.v']
+    with ThreadPoolExecutor(4) as ex:
         list(ex.map(ctx.prove, files))
     ctx.obligations.sort(key=lambda o: (o.file, 0))
     with ctx.timed('correspond'):
